@@ -512,6 +512,8 @@ class Field(WeightedGraph):
                 seeds[j] = lj[tj]
         else:
             k = np.size(seeds)
+            # the seeds are updated below: work on a copy of the caller's array
+            seeds = np.array(seeds)
 
         for i in range(maxiter):
             # voronoi labelling
